@@ -49,7 +49,10 @@ def gen_cases(tier, seed):
     for i in range(300 if q else 6000):
         yield "history", {"salt": rng.getrandbits(40), "max": rng.choice([64, 100, 256]), "start": ["empty", "empty", "prepopulated", "twelve_full"][i % 4],
                           "fork": i % 5 == 0, "net": ["mainnet", "testnet", "regtest", "mainnet", "Regtest", "TESTNET", "mainnet"][i % 7]}
-    for dn in ("node.data/blocks", "blk.dat.d/blocks", "my.dat", "blkchain/x.dat.y", "blocks.dat/", "a blk b/.dat"):
+    # directory names that mean something to path / pattern machinery: ".dat" and "blk" inside, glob metacharacters ([..] * ?), spaces, a
+    # leading dash, percent and brace characters, non-ASCII
+    for dn in ("node.data/blocks", "blk.dat.d/blocks", "my.dat", "blkchain/x.dat.y", "blocks.dat/", "a blk b/.dat", "blocks[regtest]", "node[1]/blocks", "b[a-z]k/x", "st*r/blocks",
+               "wh?t/blocks", "-n/blocks", "%s{0}/blocks", "bl\u00f6cke/blocks", "[blocks"):
         for rep in range(2 if q else 8):
             yield "history", {"salt": rng.getrandbits(40), "max": 64, "start": ["empty", "prepopulated"][rep % 2], "fork": False, "dirname": dn}
     for nf in (9, 10, 11, 12, 20, 21, 22, 30, 31, 100, 101, 110, 111):
